@@ -931,16 +931,22 @@ func init() {
 // an unrelated error (or decode against missing dictionaries).
 // fromNewReader: v is the reader result of ipc.NewReader, directly or through
 // a package helper all of whose returns hand back such a result.
-func fromNewReader(v ssa.Value, depth int) bool {
-	ex, ok := v.(*ssa.Extract)
-	if !ok || ex.Index != 0 || depth > 2 {
+func fromNewReader(v ssa.Value, ctorName string, depth int) bool {
+	if depth > 2 {
 		return false
 	}
-	cl, ok := ex.Tuple.(*ssa.Call)
+	cl, ok := v.(*ssa.Call)
 	if !ok {
-		return false
+		ex, isEx := v.(*ssa.Extract)
+		if !isEx || ex.Index != 0 {
+			return false
+		}
+		cl, ok = ex.Tuple.(*ssa.Call)
+		if !ok {
+			return false
+		}
 	}
-	if core.IsPkgFunc(core.CalleeObj(cl), arrowIPC, "NewReader") {
+	if core.IsPkgFunc(core.CalleeObj(cl), arrowIPC, ctorName) {
 		return true
 	}
 	h := cl.Call.StaticCallee()
@@ -955,7 +961,7 @@ func fromNewReader(v ssa.Value, depth int) bool {
 		if core.IsNilConst(r.Results[0]) {
 			continue
 		}
-		if !fromNewReader(r.Results[0], depth+1) {
+		if !fromNewReader(r.Results[0], ctorName, depth+1) {
 			return false
 		}
 		n++
@@ -963,15 +969,38 @@ func fromNewReader(v ssa.Value, depth int) bool {
 	return n > 0
 }
 
-func c14_8(c *core.Ctx, p *core.Prog) {
+func c14_8(c *core.Ctx, p *core.Prog) { keepRule(c, p, "streamConsumer", "Reader", "NewReader", "Release") }
+
+// c12_12: the mirror for the producer — the IPC writer of a registered stream producer is created once
+// (from ipc.NewWriter) and closed only where its map entry is deleted or in Close.  A writer that is closed
+// and re-created under its entry starts a new IPC stream (schema, full dictionaries) under a schema id the
+// consumer holds a reader for: "invalid message type (got=Schema, want=RecordBatch)".
+func c12_12(c *core.Ctx, p *core.Prog) { keepRule(c, p, "streamProducer", "Writer", "NewWriter", "Close") }
+
+// followedBy: every path from the release call to an exit passes pass — except the path on which the
+// release itself reported an error (the function gives up with that error).
+func followedBy(fn *ssa.Function, cl *ssa.Call, pass func(ssa.Instruction) bool) bool {
+	cut := map[core.Edge]bool{}
+	for _, b := range fn.Blocks {
+		if fe := failEdge(b); fe >= 0 {
+			if iff := core.IfOf(b); iff != nil && core.DerivesFrom(iff.Cond, func(v ssa.Value) bool { return v == ssa.Value(cl) }) {
+				cut[core.Edge{From: b, To: b.Succs[fe]}] = true
+			}
+		}
+	}
+	skip, _ := (core.PathQuery{Fn: fn, From: cl, Avoid: pass, CutEdges: cut}).Exists()
+	return !skip
+}
+
+func keepRule(c *core.Ctx, p *core.Prog, typeName, resType, ctorName, relMethod string) {
 	pk := p.Pkg(pkgArrowRecord)
 	if pk == nil {
 		c.Undecided("pkg", "?", "", "arrow_record not loaded")
 		return
 	}
-	tn, _ := pk.Types.Scope().Lookup("streamConsumer").(*types.TypeName)
+	tn, _ := pk.Types.Scope().Lookup(typeName).(*types.TypeName)
 	if tn == nil {
-		c.Undecided("type", "?", "", "streamConsumer not found")
+		c.Undecided("type", "?", "", typeName+" not found")
 		return
 	}
 	st := tn.Type().Underlying().(*types.Struct)
@@ -993,7 +1022,7 @@ func c14_8(c *core.Ctx, p *core.Prog) {
 			continue
 		}
 		core.EachInstr(fn, func(i ssa.Instruction) {
-			if cl, ok := i.(*ssa.Call); ok && core.IsMethodOf(core.CalleeObj(cl), arrowIPC, "Reader", "Release") && isFieldLoad(cl.Call.Args[0], rdF) {
+			if cl, ok := i.(*ssa.Call); ok && core.IsMethodOf(core.CalleeObj(cl), arrowIPC, resType, relMethod) && isFieldLoad(cl.Call.Args[0], rdF) {
 				helper[fn] = true
 			}
 		})
@@ -1011,9 +1040,9 @@ func c14_8(c *core.Ctx, p *core.Prog) {
 			if cl, ok := i.(*ssa.Call); ok && helper[cl.Call.StaticCallee()] && !helper[fn] {
 				nR++
 				inClose := fn.Name() == "Close"
-				withDelete := core.MustPassBetween(fn, cl, nil, isDelete)
+				withDelete := followedBy(fn, cl, isDelete)
 				c.Check(inClose || withDelete, fmt.Sprintf("release#%d@%s", nR, core.FuncName(fn)), p.Pos(cl.Pos()), core.FuncName(fn), "the reader is released (through its helper) together with its map entry (or in Close)",
-					"a stream's reader is released while its entry stays registered: later payloads of the sub-stream use a released reader or restart the IPC stream")
+					"a stream's "+strings.ToLower(resType)+" is released ("+relMethod+") while its entry stays registered: later payloads of the sub-stream use a released "+strings.ToLower(resType)+" or restart the IPC stream under a live schema id")
 			}
 		})
 	}
@@ -1027,27 +1056,20 @@ func c14_8(c *core.Ctx, p *core.Prog) {
 					return
 				}
 				nS++
-				fromNew := fromNewReader(s.Val, 0)
-				c.Check(fromNew, fmt.Sprintf("store#%d@%s", nS, core.FuncName(fn)), p.Pos(s.Pos()), core.FuncName(fn), "the reader field is assigned from ipc.NewReader",
-					"the reader of a registered stream consumer is overwritten (e.g. reset to nil after an error): the next payload of that sub-stream starts a fresh reader in the middle of the IPC stream and is refused with an unrelated error instead of the sticky (memory-limit) error")
+				fromNew := fromNewReader(s.Val, ctorName, 0)
+				c.Check(fromNew, fmt.Sprintf("store#%d@%s", nS, core.FuncName(fn)), p.Pos(s.Pos()), core.FuncName(fn), "the "+strings.ToLower(resType)+" field is assigned from ipc."+ctorName,
+					"the "+strings.ToLower(resType)+" of a registered "+typeName+" is overwritten (e.g. reset to nil): the next payload of that sub-stream starts a fresh IPC "+strings.ToLower(resType)+" in the middle of the stream (refused with an unrelated error instead of the sticky memory-limit error / a second schema message under a live schema id)")
 			}
 			cl, ok := i.(*ssa.Call)
-			if !ok || !core.IsMethodOf(core.CalleeObj(cl), arrowIPC, "Reader", "Release") || !isFieldLoad(cl.Call.Args[0], rdF) {
+			if !ok || !core.IsMethodOf(core.CalleeObj(cl), arrowIPC, resType, relMethod) || !isFieldLoad(cl.Call.Args[0], rdF) {
 				return
 			}
 			nR++
 			// allowed: in Close, or followed on every path by delete() of the entry before the loop continues / function returns
 			inClose := fn.Name() == "Close"
-			withDelete := core.MustPassBetween(fn, cl, nil, func(j ssa.Instruction) bool {
-				d, ok := j.(*ssa.Call)
-				if !ok {
-					return false
-				}
-				b, ok := d.Call.Value.(*ssa.Builtin)
-				return ok && b.Name() == "delete"
-			})
+			withDelete := followedBy(fn, cl, isDelete)
 			c.Check(inClose || withDelete, fmt.Sprintf("release#%d@%s", nR, core.FuncName(fn)), p.Pos(cl.Pos()), core.FuncName(fn), "the reader is released together with its map entry (or in Close)",
-				"a stream's reader is released while its entry stays registered: later payloads of the sub-stream use a released reader or restart the IPC stream")
+				"a stream's "+strings.ToLower(resType)+" is released ("+relMethod+") while its entry stays registered: later payloads of the sub-stream use a released "+strings.ToLower(resType)+" or restart the IPC stream under a live schema id")
 		})
 	}
 }
@@ -1225,5 +1247,6 @@ func init() {
 	register("C07", &core.Rule{ID: "C07.16", Title: "a registered stream is retired only by a new schema id of its own payload type (or Close)", Mod: core.ModRoot, Floor: 1, Run: c07_16})
 	register("C14", &core.Rule{ID: "C14.13", Title: "a registered stream is retired only by a new schema id of its own payload type (or Close)", Mod: core.ModRoot, Floor: 1, Run: c07_16})
 	register("C15", &core.Rule{ID: "C15.7", Title: "a stream producer is forgotten only after its IPC writer was closed (the writer's retained dictionaries are returned to the allocator)", Mod: core.ModRoot, Floor: 1, Run: c15_7})
+	register("C12", &core.Rule{ID: "C12.12", Title: "a registered stream producer keeps its IPC writer: created once from ipc.NewWriter, closed only with its map entry or in Close", Mod: core.ModRoot, Floor: 2, Run: c12_12})
 	register("C12", &core.Rule{ID: "C12.11", Title: "a stream producer is retired only by a new schema of its own payload type, with its writer closed (a live schema id is never restarted)", Mod: core.ModRoot, Floor: 1, Run: c15_7})
 }
